@@ -221,6 +221,11 @@ def split_replay(ctx, cases, binary, n_graphs, label="split"):
     os.makedirs(tdir)
     s = run_engine(ctx, cases, binary, ["-sample", str(n_graphs), "-options", "split", "-workers", "8", "-trace", tdir], seed_offset=4000)
     for m in s["mismatches"]:
+        if m["kind"] == "split-states-missing":
+            # one signature whatever the option (a recorded finding of C07; not a matter of C05)
+            if ctx.prop == "C07":
+                ctx.report({"kind": m["kind"]}, "ow-sim (%s): %s" % (m["option"], m["detail"][:1500]), m)
+            continue
         ctx.report({"kind": m["kind"], "option": m["option"]}, "ow-sim (%s): %s" % (m["option"], m["detail"][:1500]), m)
     files = sorted(os.path.join(tdir, f) for f in os.listdir(tdir) if f.startswith("split_") and f.endswith(".ndjson"))
 
